@@ -218,6 +218,15 @@ fn one_run(ver: u8, rng: &mut Rng, name: &str, steps: usize, out: &mut dyn Write
                                 let n = 117 + rng.below(7) as usize;
                                 ps.push(P::Pair(b"k".to_vec(), vec![b'v'; n]));
                             }
+                            // sometimes exactly as large as the receiver's Maximum Packet Size
+                            let peer_mps = if from_client { ls.mps } else { lc.mps };
+                            let mut tag = tag.clone();
+                            if let Some(m) = peer_mps {
+                                let base = w_publish(ver, 2, qos, false, false, &wire_topic, id, &ps, &tag).len();
+                                if ver == 5 && (m as usize) > base && (m as usize) < base + 100 && rng.chance(1, 2) {
+                                    tag.extend(std::iter::repeat(b'x').take(m as usize - base));
+                                }
+                            }
                             let bytes = w_publish(ver, 2, qos, false, false, &wire_topic, id, &ps, &tag);
                             let obs = $side.call(format!("send {} {}", ver, hex(&bytes)), false);
                             let refused = obs.iter().any(|o| matches!(o, Obs::Err(_)));
@@ -294,6 +303,27 @@ fn one_run(ver: u8, rng: &mut Rng, name: &str, steps: usize, out: &mut dyn Write
                 s.out.clear();
                 c.alias.clear();
                 s.alias.clear();
+                if rng.chance(1, 4) {
+                    // the server application turns the first reconnect attempt down (busy); the
+                    // session must survive that; the refusal's own close request is expected
+                    let (cc, sc, ec, es) = (c.closes, s.closes, c.errs_recv.len(), s.errs_recv.len());
+                    let ps = if ver == 5 { lim_props(&lc, true) } else { vec![] };
+                    c.call(format!("send {} {}", ver, hex(&w_connect(ver, false, 0, b"cid", &ps))), false);
+                    let b: Vec<u8> = c.out.drain(..).collect();
+                    s.call(format!("recv {}", hex(&b)), true);
+                    let rc = if ver == 5 { 0x89 } else { 3 };
+                    s.call(format!("send {} {}", ver, hex(&w_connack(ver, false, rc, &[]))), false);
+                    let b: Vec<u8> = s.out.drain(..).collect();
+                    c.call(format!("recv {}", hex(&b)), true);
+                    c.call("closed".into(), false);
+                    s.call("closed".into(), false);
+                    c.out.clear();
+                    s.out.clear();
+                    c.closes = cc;
+                    s.closes = sc;
+                    c.errs_recv.truncate(ec);
+                    s.errs_recv.truncate(es);
+                }
                 handshake!(false);
             }
             _ => {
